@@ -30,7 +30,8 @@ class Roles:
         for b in facts.fns():
             if b.kind != "fn":
                 continue
-            ps = {callee_of(t)["key"] for _, t in b.calls() if callee_of(t) and callee_of(t)["local"]
+            unit = [b] + [x for x in facts.fns() if x.key.startswith(b.key + "::{closure#")]
+            ps = {callee_of(t)["key"] for ub in unit for _, t in ub.calls() if callee_of(t) and callee_of(t)["local"]
                   and callee_of(t)["path"].endswith("::from_value") and " as Parser<" in callee_of(t)["path"]}
             if len(ps) >= 3:
                 vp.append((b, ps))
